@@ -11,7 +11,7 @@ sys.path.insert( 0, HERE )
 from sa import cli, core
 from sa.core import Ctx, RULES
 
-FILES = [ 'automata.py', 'dotdict.py', 'remote/plc_modbus.py', 'history/times.py', 'history/files.py', 'server/tnetstrings.py', 'server/tnet.py',
+FILES = [ 'automata.py', 'dotdict.py', 'remote/plc_modbus.py', 'history/times.py', 'history/files.py', 'misc.py', 'server/tnetstrings.py', 'server/tnet.py',
           'server/network.py', 'server/enip/parser.py', 'server/enip/device.py', 'server/enip/logix.py', 'server/enip/ucmm.py', 'server/enip/main.py',
           'server/enip/client.py', 'server/enip/get_attribute.py', 'server/enip/poll.py', 'server/enip/defaults.py' ]
 
